@@ -2,6 +2,10 @@
 # tools/try_seed.sh <worktree> <prop> [<prop>...] : run quick checks against a mutated scratch worktree
 wt=$1; shift
 cd "$(dirname "$0")/.."
+# scratch work dir and a stand-in VERIF_DIR (replays and evidence of these runs stay out of /verif)
+mkdir -p /tmp/vwork-seed/verifdir
+ln -sfn /verif/engine /tmp/vwork-seed/verifdir/engine
+cp /verif/known_findings.json /tmp/vwork-seed/verifdir/known_findings.json
 for p in "$@"; do
   out=$(VERIF_REPO=$wt VERIF_WORK=/tmp/vwork-seed VERIF_DIR=/tmp/vwork-seed/verifdir ./check $p quick 2>&1); rc=$?
   echo "== $p rc=$rc"; echo "$out" | grep -E "^VIOLATION|signature|case:|KNOWN|INCONCLUSIVE|^C[0-9]" | cut -c1-300 | head -14
